@@ -1,2 +1,177 @@
-/- stub: line-protocol driver for C03 (to be written) -/
-def main : IO Unit := pure ()
+/- Line-protocol driver for the printer model (C03).  Commands (tab separated):
+     C <sexp> <text>   tree (canonical surface form of a real tree) and the text the real `str()` produced for it →
+                       "<good>\t<first bad triple or ->\t<model print text>\t<lex(text) = model tokens>\t<parse(model print)>"
+     B                 every (parent, operand position, child) combination of the fragment's operators whose witness tree fails
+                       the computed criterion: "<parent>\t<pos>\t<child>\t<witness sexp>\t<min text>\t<model print>\t<reparse>"
+-/
+import UtapModel.Model.Sexp
+import UtapModel.Model.PrintModel
+open UtapModel UtapModel.Pratt UtapModel.ExprTable UtapModel.ExprGrammar UtapModel.PrintModel
+
+def tokOfName (n : String) : Nat := tokId n
+def fnOfName (n : String) : Nat := (fnProds.findIdx? (fun x => x.1 == n)).getD 9999
+def nameOfTok (t : Nat) : String := tokNames[t]?.getD "?"
+def nameOfFn (k : Nat) : String := match fnProds[k]? with | some (n, _, _) => n | none => "?"
+
+partial def toExpr : Sexp → Option Expr
+  | .atom "true" => some (.atom .tru)
+  | .atom "false" => some (.atom .fls)
+  | .list [.atom "nat", .atom n] => n.toNat?.map (fun k => .atom (.nat k))
+  | .list [.atom "intmin"] => some (.atom .intMin)
+  | .list [.atom "dbl", .atom s] => some (.atom (.dbl s))
+  | .list [.atom "str", .atom s] => some (.atom (.str s))
+  | .list [.atom "id", .atom s] => some (.atom (.ident s))
+  | .list [.atom "pre", .atom t, e] => (toExpr e).map (.pre (tokOfName t))
+  | .list [.atom "post", .atom t, e] => (toExpr e).map (.post (tokOfName t))
+  | .list [.atom "bin", .atom t, l, r] => do let a ← toExpr l; let b ← toExpr r; pure (.bin (tokOfName t) a b)
+  | .list [.atom "quant", .atom t, .atom id, .atom ty, e] => (toExpr e).map (.quant (tokOfName t) id ty)
+  | .list [.atom "dot", .atom n, e] => (toExpr e).map (.dot n)
+  | .list [.atom "dotloc", e] => (toExpr e).map .dotLoc
+  | .list [.atom "tern", c, a, b] => do let x ← toExpr c; let y ← toExpr a; let z ← toExpr b; pure (.tern x y z)
+  | .list [.atom "index", a, i] => do let x ← toExpr a; let y ← toExpr i; pure (.index x y)
+  | .list [.atom "fn", .atom n, a] => (toExpr a).map (.fn1 (fnOfName n))
+  | .list [.atom "fn", .atom n, a, b] => do let x ← toExpr a; let y ← toExpr b; pure (.fn2 (fnOfName n) x y)
+  | .list [.atom "fn", .atom n, a, b, c] => do
+      let x ← toExpr a; let y ← toExpr b; let z ← toExpr c; pure (.fn3 (fnOfName n) x y z)
+  | .list (.atom "call" :: f :: args) => do
+      let g ← toExpr f
+      let as ← args.mapM toExpr
+      pure (.call g (as.foldr .acons .anil))
+  | _ => none
+
+partial def toSexp : Expr → String
+  | .atom (.nat n) => s!"(nat {n})"
+  | .atom .intMin => "(intmin)"
+  | .atom (.dbl s) => s!"(dbl {s})"
+  | .atom (.str s) => s!"(str {s})"
+  | .atom .tru => "true"
+  | .atom .fls => "false"
+  | .atom .deadlock => "(id deadlock)"
+  | .atom (.ident x) => s!"(id {x})"
+  | .pre t x => s!"(pre {nameOfTok t} {toSexp x})"
+  | .quant k id ty x => s!"(quant {nameOfTok k} {id} {ty} {toSexp x})"
+  | .post t x => s!"(post {nameOfTok t} {toSexp x})"
+  | .dot n x => s!"(dot {n} {toSexp x})"
+  | .dotLoc x => s!"(dotloc {toSexp x})"
+  | .bin t l r => s!"(bin {nameOfTok t} {toSexp l} {toSexp r})"
+  | .tern c a b => s!"(tern {toSexp c} {toSexp a} {toSexp b})"
+  | .index a i => s!"(index {toSexp a} {toSexp i})"
+  | .fn1 k a => s!"(fn {nameOfFn k} {toSexp a})"
+  | .fn2 k a b => s!"(fn {nameOfFn k} {toSexp a} {toSexp b})"
+  | .fn3 k a b c => s!"(fn {nameOfFn k} {toSexp a} {toSexp b} {toSexp c})"
+  | .call f args => "(call " ++ toSexp f ++ String.join ((argList args).map (fun a => " " ++ toSexp a)) ++ ")"
+  | .anil => "()"
+  | .acons _ _ => "()"
+
+/-- the tree as a Lean term (for the regenerated witness theorems) -/
+partial def toLean : Expr → String
+  | .atom (.nat n) => s!"(.atom (.nat {n}))"
+  | .atom .intMin => "(.atom .intMin)"
+  | .atom (.dbl s) => s!"(.atom (.dbl \"{s}\"))"
+  | .atom (.str s) => s!"(.atom (.str \"{s}\"))"
+  | .atom .tru => "(.atom .tru)"
+  | .atom .fls => "(.atom .fls)"
+  | .atom .deadlock => "(.atom .deadlock)"
+  | .atom (.ident x) => s!"(.atom (.ident \"{x}\"))"
+  | .pre t x => s!"(.pre {t} {toLean x})"
+  | .quant k id ty x => s!"(.quant {k} \"{id}\" \"{ty}\" {toLean x})"
+  | .post t x => s!"(.post {t} {toLean x})"
+  | .dot n x => s!"(.dot \"{n}\" {toLean x})"
+  | .dotLoc x => s!"(.dotLoc {toLean x})"
+  | .bin t l r => s!"(.bin {t} {toLean l} {toLean r})"
+  | .tern c a b => s!"(.tern {toLean c} {toLean a} {toLean b})"
+  | .index a i => s!"(.index {toLean a} {toLean i})"
+  | .fn1 k a => s!"(.fn1 {k} {toLean a})"
+  | .fn2 k a b => s!"(.fn2 {k} {toLean a} {toLean b})"
+  | .fn3 k a b c => s!"(.fn3 {k} {toLean a} {toLean b} {toLean c})"
+  | .call f args => s!"(.call {toLean f} {toLean args})"
+  | .anil => ".anil"
+  | .acons x r => s!"(.acons {toLean x} {toLean r})"
+
+def chk (D : Data) (k : String) (i c : Nat) (x : Expr) : Option (String × Nat × String) :=
+  if opOK D k i c x then none else some (k, i, kindName D x)
+
+/-- first (parent kind, operand position, child kind) at which the criterion fails -/
+partial def firstBad (D : Data) : Expr → Option (String × Nat × String)
+  | .pre t x => chk D (preKind D t) 0 (D.tbl.mn (D.tbl.pp t)) x <|> firstBad D x
+  | .quant k _ _ x => chk D (quantKind D k) 1 (D.tbl.mn (D.tbl.quantL k)) x <|> firstBad D x
+  | .post t x => chk D (postKind D t) 0 (D.tbl.lctx (D.tbl.sp t)) x <|> firstBad D x
+  | .dot _ x | .dotLoc x => chk D "DOT" 0 (D.tbl.lctx D.tbl.topL) x <|> firstBad D x
+  | .bin t l r =>
+    chk D (binKind D t) 0 (D.tbl.lctx (D.tbl.bp t)) l <|> chk D (binKind D t) 1 (D.tbl.mn (D.tbl.bp t)) r <|> firstBad D l <|> firstBad D r
+  | .tern c a b =>
+    chk D "INLINE_IF" 0 (D.tbl.lctx D.tbl.questL) c <|> chk D "INLINE_IF" 2 (D.tbl.mn D.tbl.ternL) b <|>
+      firstBad D c <|> firstBad D a <|> firstBad D b
+  | .index a i => chk D "ARRAY" 0 (D.tbl.lctx D.tbl.topL) a <|> firstBad D a <|> firstBad D i
+  | .fn1 _ a => firstBad D a
+  | .fn2 _ a b => firstBad D a <|> firstBad D b
+  | .fn3 _ a b c => firstBad D a <|> firstBad D b <|> firstBad D c
+  | .call f args => chk D "FUN_CALL" 0 (D.tbl.lctx D.tbl.topL) f <|> firstBad D f <|> (argList args).findSome? (firstBad D)
+  | _ => none
+
+def a (s : String) : Expr := .atom (.ident s)
+
+/-- canonical token of a kind in the printer's spelling -/
+def canonBin : List Nat :=
+  (binProds.map (fun x => x.2.2)).eraseDups.filterMap (fun k =>
+    match UtapModel.PrinterTable.opText.find? (fun o => o.1 == k) with
+    | some (_, txt) => match literals.find? (fun l => l.1 == txt) with | some (_, tn) => some (tokId tn) | none => none
+    | none => match binProds.find? (fun x => x.2.2 == k) with | some (t, _, _) => some t | none => none)
+
+/-- all operator shapes of the fragment, as functions from operand trees -/
+def shapes : List (String × Nat × (List Expr → Expr)) :=
+  canonBin.map (fun t => (binKind genData t, 2, fun ops => .bin t (ops.getD 0 (a "a")) (ops.getD 1 (a "b")))) ++
+  (preProds.filter (fun x => x.2.2 != "" && x.1 != tokId "T_KW_NOT")).map (fun x => (x.2.2, 1, fun ops => .pre x.1 (ops.getD 0 (a "a")))) ++
+  postProds.map (fun x => (x.2.2, 1, fun ops => .post x.1 (ops.getD 0 (a "a")))) ++
+  quantProds.map (fun x => (x.2.2, 2, fun ops => .quant x.1 "i" "int[0,3]" (ops.getD 1 (a "a")))) ++
+  [("INLINE_IF", 3, fun ops => .tern (ops.getD 0 (a "p")) (ops.getD 1 (a "a")) (ops.getD 2 (a "b"))),
+   ("ARRAY", 2, fun ops => .index (ops.getD 0 (a "arr")) (ops.getD 1 (a "i"))),
+   ("DOT", 1, fun ops => .dot "f" (ops.getD 0 (a "s"))),
+   ("FUN_CALL", 1, fun ops => .call (ops.getD 0 (a "f1")) (.acons (a "a") .anil))]
+
+def dfl (pk : String) (j : Nat) : Expr :=
+  if pk == "ARRAY" && j == 0 then a "arr" else if pk == "DOT" then a "s" else if pk == "FUN_CALL" then a "f1"
+  else a (["a", "b", "c"].getD j "a")
+
+def badLines : List String := Id.run do
+  let mut out : List String := []
+  for (pk, n, mk) in shapes do
+    for i in List.range n do
+      if (pk == "FORALL" || pk == "EXISTS" || pk == "SUM") && i == 0 then continue
+      for (ck, _, mkc) in shapes do
+        let child := mkc []
+        let w := mk ((List.range n).map (fun j => if j == i then child else dfl pk j))
+        if !(good genData mt false w) && wf utapT mt false w then
+          let txt := toksText (lprint genData mt w)
+          let re := match parseTop utapT (lprint genData mt w) with | some e => (toK genData e).str | none => "REJECT"
+          out := out ++ ["\t".intercalate [pk, toString i, ck, toSexp w, toksText (render utapT mt false 0 w), txt, re, (toK genData w).str, toLean w]]
+  return out
+
+def stepLine (line : String) : List String :=
+  let line := String.ofList (line.toList.reverse.dropWhile (fun c => c == '\n' || c == '\r')).reverse
+  match line.splitOn "\t" with
+  | ["C", s, text] =>
+    match Sexp.parse s with
+    | none => ["bad-sexp"]
+    | some sx =>
+      match toExpr sx with
+      | none => ["bad-tree"]
+      | some e =>
+        let g := good genData mt false e
+        let bad := match firstBad genData e with | some (p, i, c) => s!"{p}/{i}/{c}" | none => "-"
+        let toks := lprint genData mt e
+        let lexeq := match lexExpr text with | some ts => decide (ts = toks) | none => false
+        let re := match parseTop utapT toks with | some e' => (toK genData e').str | none => "REJECT"
+        ["\t".intercalate [toString g, bad, toksText toks, toString lexeq, re]]
+  | ["B"] => badLines ++ ["END"]
+  | _ => ["bad-op"]
+
+partial def loop (h : IO.FS.Stream) (out : IO.FS.Stream) : IO Unit := do
+  let line ← h.getLine
+  if line.isEmpty then return ()
+  for l in stepLine line do out.putStrLn l
+  loop h out
+
+def main : IO Unit := do
+  let out ← IO.getStdout
+  loop (← IO.getStdin) out
